@@ -59,6 +59,18 @@ func classifyPath(d *declInfo, e ast.Expr, defs map[types.Object]ast.Expr, depth
 			if def, ok := defs[o]; ok {
 				return classifyPath(d, def, defs, depth+1)
 			}
+			// a parameter of an internal helper: bound at its call sites
+			if args, callers := paramBindings(d, o); len(args) > 0 {
+				var cls pathClass
+				for i, a := range args {
+					pc := classifyPath(callers[i], a, singleDefs(callers[i].pkg, callers[i].fd.Body), depth+1)
+					if i > 0 && pc.kind != cls.kind {
+						return pathClass{"other", "parameter " + x.Name + " is bound to different kinds of paths at its call sites"}
+					}
+					cls = pc
+				}
+				return cls
+			}
 		}
 		return pathClass{"other", "variable " + x.Name + " without a single definition"}
 	case *ast.SelectorExpr:
@@ -110,6 +122,14 @@ func isDigestName(d *declInfo, e ast.Expr, defs map[types.Object]ast.Expr) bool 
 	}
 	def, ok := defs[objOf(d.pkg, id)]
 	if !ok {
+		if args, callers := paramBindings(d, objOf(d.pkg, id)); len(args) > 0 {
+			for i, a := range args {
+				if !isDigestName(callers[i], a, singleDefs(callers[i].pkg, callers[i].fd.Body)) {
+					return false
+				}
+			}
+			return true
+		}
 		return false
 	}
 	ce, ok := def.(*ast.CallExpr)
@@ -125,6 +145,53 @@ func isDigestName(d *declInfo, e ast.Expr, defs map[types.Object]ast.Expr) bool 
 
 var digestNamerProblems = map[*types.Func]string{}
 var theProgram *Program
+
+// storageDecls lists the function declarations of pkg/storage (fake.go excluded).
+func storageDecls(p *Program) []*declInfo {
+	pk := p.pkg("pkg/storage")
+	var out []*declInfo
+	for _, file := range pk.Syntax {
+		if strings.HasSuffix(p.Fset.Position(file.Pos()).Filename, "fake.go") {
+			continue
+		}
+		for _, dd := range file.Decls {
+			fd, ok := dd.(*ast.FuncDecl)
+			if !ok || fd.Body == nil {
+				continue
+			}
+			obj, _ := pk.TypesInfo.Defs[fd.Name].(*types.Func)
+			out = append(out, &declInfo{fd, pk, obj, objName(obj)})
+		}
+	}
+	return out
+}
+
+// paramBindings returns, for a parameter of d, the argument expressions at every call site of d
+// inside pkg/storage together with the calling declaration.
+func paramBindings(d *declInfo, param types.Object) (args []ast.Expr, callers []*declInfo) {
+	idx := -1
+	i := 0
+	for _, f := range d.fd.Type.Params.List {
+		for _, n := range f.Names {
+			if d.pkg.TypesInfo.Defs[n] == param {
+				idx = i
+			}
+			i++
+		}
+	}
+	if idx < 0 || theProgram == nil {
+		return nil, nil
+	}
+	for _, cd := range storageDecls(theProgram) {
+		for _, cs := range callsIn(cd.pkg, cd.fd.Body) {
+			if cs.callee == d.obj && idx < len(cs.call.Args) {
+				args = append(args, cs.call.Args[idx])
+				callers = append(callers, cd)
+			}
+		}
+	}
+	return args, callers
+}
 
 // digestNamer checks the body of the naming function; returns "" when it is a digest namer.
 func digestNamer(_ *types.Package, f *types.Func) string {
@@ -246,37 +313,47 @@ type fsCall struct {
 func storageFsCalls(c *Ctx, rule string) []fsCall {
 	theProgram = c.P
 	var out []fsCall
-	pk := c.P.pkg("pkg/storage")
-	for _, file := range pk.Syntax {
-		if strings.HasSuffix(c.P.Fset.Position(file.Pos()).Filename, "fake.go") {
-			continue
-		}
-		for _, dd := range file.Decls {
-			fd, ok := dd.(*ast.FuncDecl)
-			if !ok || fd.Body == nil {
+	for _, d := range storageDecls(c.P) {
+		c.sawFunc(d.name)
+		defs := singleDefs(d.pkg, d.fd.Body)
+		for _, cs := range callsIn(d.pkg, d.fd.Body) {
+			idx, ok := fsCalls[cs.callee.FullName()]
+			if !ok {
 				continue
 			}
-			obj, _ := pk.TypesInfo.Defs[fd.Name].(*types.Func)
-			d := &declInfo{fd, pk, obj, objName(obj)}
-			c.sawFunc(d.name)
-			defs := singleDefs(pk, fd.Body)
-			for _, cs := range callsIn(pk, fd.Body) {
-				idx, ok := fsCalls[cs.callee.FullName()]
-				if !ok {
-					continue
+			c.CallSites++
+			fc := fsCall{d: d, call: cs.call, name: cs.callee.FullName()}
+			for _, i := range idx {
+				if i < len(cs.call.Args) {
+					fc.paths = append(fc.paths, classifyPath(d, cs.call.Args[i], defs, 0))
 				}
-				c.CallSites++
-				fc := fsCall{d: d, call: cs.call, name: cs.callee.FullName()}
-				for _, i := range idx {
-					if i < len(cs.call.Args) {
-						fc.paths = append(fc.paths, classifyPath(d, cs.call.Args[i], defs, 0))
-					}
-				}
-				out = append(out, fc)
 			}
+			out = append(out, fc)
 		}
 	}
 	return out
+}
+
+// protocolSite finds, among Store and the storage helpers it calls, the function that performs a
+// given file-system call on the final entry, and the statement inside Store that leads to it.
+func protocolSite(c *Ctx, store *declInfo, match func(d *declInfo, cs callSite) bool) (pf *declInfo, call *ast.CallExpr, inStore ast.Node) {
+	for _, d := range storageDecls(c.P) {
+		for _, cs := range callsIn(d.pkg, d.fd.Body) {
+			if !match(d, cs) {
+				continue
+			}
+			if d.obj == store.obj {
+				return d, cs.call, cs.call
+			}
+			// helper: the call to it inside Store
+			for _, sc := range callsIn(store.pkg, store.fd.Body) {
+				if sc.callee == d.obj {
+					return d, cs.call, sc.call
+				}
+			}
+		}
+	}
+	return nil, nil, nil
 }
 
 // earlyExits returns the conditions of if-statements that precede stmt in its enclosing blocks
@@ -359,19 +436,25 @@ func storeGuards(c *Ctx) {
 		return
 	}
 	defs := singleDefs(d.pkg, d.fd.Body)
-	var publish *ast.CallExpr
-	for _, cs := range callsIn(d.pkg, d.fd.Body) {
+	theProgram = c.P
+	_, pcall, publishAt := protocolSite(c, d, func(pd *declInfo, cs callSite) bool {
 		switch cs.callee.FullName() {
 		case "os.WriteFile", "os.Rename", "os.Create", "os.OpenFile":
+			pdefs := singleDefs(pd.pkg, pd.fd.Body)
 			for _, a := range cs.call.Args {
-				if classifyPath(d, a, defs, 0).kind == "final" {
-					publish = cs.call
+				if classifyPath(pd, a, pdefs, 0).kind == "final" {
+					return true
 				}
 			}
 		}
+		return false
+	})
+	var publish *ast.CallExpr
+	if pcall != nil {
+		publish, _ = publishAt.(*ast.CallExpr)
 	}
 	if publish == nil {
-		c.undecided(R, storeFn+"#publish", c.P.Pos(d.fd.Pos()), "the call that creates the final entry was not found")
+		c.undecided(R, storeFn+"#publish", c.P.Pos(d.fd.Pos()), "the call that creates the final entry was not found in Store or a helper it calls")
 		return
 	}
 	conds := earlyExits(d, publish)
@@ -687,9 +770,14 @@ func runC20(c *Ctx) {
 
 	const R2 = "replace-protocol"
 	c.rule(R2, "in Store: os.CreateTemp(directory, separator-free pattern) → Write on that file → Close with its error checked → os.Rename(temp, final), in this order on the success path; every failure exit after the temporary exists removes it; nothing else touches the final path except existence tests")
-	d := c.decl(R2, storeFn)
-	if d == nil {
+	sd := c.decl(R2, storeFn)
+	if sd == nil {
 		return
+	}
+	theProgram = c.P
+	d, _, _ := protocolSite(c, sd, func(pd *declInfo, cs callSite) bool { return cs.callee.FullName() == "os.CreateTemp" })
+	if d == nil {
+		d = sd
 	}
 	defs := singleDefs(d.pkg, d.fd.Body)
 	var create, write, closeC, rename *ast.CallExpr
